@@ -1,8 +1,8 @@
 SPECIFICATION Spec
 CONSTANTS
-  Pushes <- PushesQ
-  Caps = {1, 2, 3}
-  MaxOps = 5
+  Pushes <- PushesT
+  Caps = {1, 2, 3, 4}
+  MaxOps = 9
   EmitOn = FALSE
 VIEW view
 INVARIANTS TypeOK Ordered Bounded NoDup
